@@ -1069,8 +1069,13 @@ def located_failure(cls, tag, root_schema, root_inst, e, rspec, wdocs):
     world = impl.World(wdocs)
     nav = impl.make_resolver(cls, root_schema, rspec, world)
     try:
+        # the walk is schema-aware: the value of `properties`, `patternProperties`, `dependencies`,
+        # `definitions` is a MAP of names to subschemas (a member named "$ref" or "id" there is neither a
+        # reference nor an identifier), the value of `items`/`allOf`/… may be an ARRAY of subschemas
         node = root_schema
-        for step in sp:
+        sp = list(sp)
+        i = 0
+        while i < len(sp):
             hops = 0
             while isinstance(node, dict) and isinstance(node.get("$ref"), str) and hops < 50:
                 url, node = nav.resolve(node["$ref"])
@@ -1080,7 +1085,16 @@ def located_failure(cls, tag, root_schema, root_inst, e, rspec, wdocs):
                 sid = node.get("id" if tag in ("d3", "d4") else "$id")
                 if isinstance(sid, str) and sid:
                     nav.push_scope(sid)
-            node = node[step]
+            k = sp[i]
+            node = node[k]
+            i += 1
+            if i < len(sp):
+                if k in ("properties", "patternProperties", "dependencies", "definitions") and isinstance(node, dict):
+                    node = node[sp[i]]
+                    i += 1
+                elif isinstance(node, list) and isinstance(sp[i], int) and not isinstance(sp[i], bool):
+                    node = node[sp[i]]
+                    i += 1
         if e.validator is None:
             # the path of a `false`-schema error ends at the `false`, possibly designated by references
             hops = 0
